@@ -144,7 +144,14 @@ def collect_impls(syn):
         cls = None
         for l in lits.get("name", []):
             cls = cls or lit_class(l)
-        out.append({"ty": ty, "class": cls, "how": "impl", "name_literals": lits.get("name"), "inline_literals": lits.get("inline"),
+        delegate = None
+        if cls is None and "name" in fns:
+            for e in fns["name"]["events"]:
+                if e["kind"] == "call":
+                    mm = re.match(r"^<(.+)as(?:crate|\$crate|::ts_rs)::TS>::name$", S.squash(e["func"]))
+                    if mm and mm.group(1) not in ("Self",) and not re.match(r"^[A-Z]\w*$", mm.group(1)):
+                        delegate = norm_ty(mm.group(1))
+        out.append({"ty": ty, "class": cls, "how": "impl", "delegate": delegate, "name_literals": lits.get("name"), "inline_literals": lits.get("inline"),
                     "file": it["file"], "line": it["line"], "cfg": it["cfg"]})
     return out
 
